@@ -9,6 +9,7 @@
 #include "state.h"
 #include "gc.h"
 #include <stdio.h>
+#include <signal.h>
 #include <math.h>
 #include <stdlib.h>
 #include <string.h>
@@ -127,6 +128,7 @@ static volatile int64_t vnow_ns = 1000000000000LL; /* arbitrary epoch: 1000 s */
 static __thread int timer_armed = 0;
 static __thread int64_t timer_when_ns = 0;
 static long vt_jumps = 0;
+static int vt_wait_spins = 12000;   /* x 5 ms */
 
 int __real_clock_gettime(clockid_t, struct timespec *);
 int __real_timerfd_settime(int, int, const struct itimerspec *, struct itimerspec *);
@@ -189,12 +191,22 @@ int __wrap_pthread_create(pthread_t *t, const pthread_attr_t *a, void *(*fn)(voi
     return r;
 }
 
+#include <sys/wait.h>
+/* 1 if this process has a child that is still running */
+static int running_children(void) {
+    siginfo_t info;
+    memset(&info, 0, sizeof info);
+    if (waitid(P_ALL, 0, &info, WEXITED | WNOHANG | WNOWAIT) != 0) return 0; /* ECHILD: none */
+    return info.si_pid == 0;
+}
+
 int __wrap_epoll_wait(int epfd, struct epoll_event *events, int maxevents, int timeout) {
     if (vtime_on && epfd == janet_vm.epoll) {
         int ready = __real_epoll_wait(epfd, events, maxevents, 0);
         if (ready != 0) return ready;
-        /* give live threads (at most ~2 s of real time) to post their results first */
-        for (int spins = 0; spins < 400 && __atomic_load_n(&live_threads, __ATOMIC_SEQ_CST) > 0; spins++) {
+        /* give live threads and running child processes (VERIF_VT_WAIT_MS of real time, default 60 s)
+         * the chance to post their results / produce output first */
+        for (int spins = 0; spins < vt_wait_spins && (__atomic_load_n(&live_threads, __ATOMIC_SEQ_CST) > 0 || running_children()); spins++) {
             ready = __real_epoll_wait(epfd, events, maxevents, 5);
             if (ready != 0) return ready;
         }
@@ -480,8 +492,12 @@ int main(int argc, char **argv) {
             }
         }
     }
+    /* Process-level policy of the harness: a write to a closed pipe/socket returns EPIPE
+     * (janet raises an error) instead of killing the process with SIGPIPE. */
+    signal(SIGPIPE, SIG_IGN);
     const char *e;
     if ((e = getenv("VERIF_VTIME")) && *e == '1') vtime_on = 1;
+    if ((e = getenv("VERIF_VT_WAIT_MS")) && *e) vt_wait_spins = atoi(e) / 5;
     if ((e = getenv("VERIF_GC")) && *e) {
         if (gc_parse_spec(e)) {
             fprintf(stderr, "vjanet: bad VERIF_GC spec\n");
